@@ -107,6 +107,19 @@ check('C07', 'exploration',
       TB, 'exhaustive enumeration of the input cube against an executable specification', 'E5',
       'DESIGN.md §4 C07')
 
+check('C08', 'model_checking',
+      'For every committed base tree (every reachable shape of the shape spaces at node sizes 2/2, 3/2, 4/2) '
+      'every ordered pair of single-operation transactions (insert of every absent universe or gap key, '
+      'delete and value change of every present key, clear) is run on two connections opened at the same '
+      'snapshot and committed in both orders under optimistic concurrency control with conflict resolution; '
+      'a third fresh connection must find a conflict-free outcome only if the stored tree is sound and holds '
+      'the serial result or the key-disjoint merge; the connection log must show every stored interior node '
+      'on each write\'s descent path as read-current-declared (or registered) and nothing for pure reads.',
+      TB + ' MiniDB (vt/minidb.py) stands in for ZODB (serial check, _p_resolveConflict with one shared '
+      'PersistentReference factory, readCurrent verification, atomic commit).',
+      'exhaustive enumeration of transaction pairs and commit schedules over a BFS state space', 'E1+E4',
+      'DESIGN.md §4 C08')
+
 PENDING = ['C%02d' % i for i in range(1, 20)]
 
 
